@@ -8,7 +8,8 @@ use std::io::Write;
 use std::panic::{catch_unwind, AssertUnwindSafe};
 
 const TEXTS: [&str; 8] = ["", "a", "bc\n", "é", "日本\nx", "😀", "line1\nline2\n", ";{}"];
-const BUFS: [&[u8]; 4] = [b"", b"raw", &[0xff, 0x61, 0xfe], &[0xe6, 0x97]];
+// the last two are the halves of "a\u{20ac}b": each is invalid on its own, their concatenation is valid UTF-8
+const BUFS: [&[u8]; 6] = [b"", b"raw", &[0xff, 0x61, 0xfe], &[0xe6, 0x97], &[0x61, 0xe2, 0x82], &[0xac, 0x62]];
 
 /// tree encoding: S<k> string leaf, B<k> buffer leaf, O<k> original leaf, C(..) concat via new (typed leaves boxed), A(..) concat via repeated add,
 /// X(t) boxed, K(t) cached, R(t) replace with no replacements, N(..) concat of one nested typed ConcatSource child
@@ -110,7 +111,7 @@ pub fn search(args: &[String]) -> i32 {
   std::panic::set_hook(Box::new(|_| {}));
   let mut rng = Rng(seed.wrapping_mul(0x9E3779B97F4A7C15) | 1);
   let mut tried = 0u64;
-  let fixed = ["C()", "C(S1)", "C(B2)", "C(S1,S3)", "C(B2,S3,B3)", "A(S1,C(S2,S3))", "C(C(S1,S2),S4)", "K(C(B2,S1))", "R(C(S1,S4))", "C(R(S4),K(B2),O6)", "A(A(S1),S0,C())", "C(S0,S0)", "C(O6,O2,S5)"];
+  let fixed = ["C()", "C(S1)", "C(B2)", "C(S1,S3)", "C(B2,S3,B3)", "A(S1,C(S2,S3))", "C(C(S1,S2),S4)", "K(C(B2,S1))", "R(C(S1,S4))", "C(R(S4),K(B2),O6)", "A(A(S1),S0,C())", "C(S0,S0)", "C(O6,O2,S5)", "C(B4,B5)", "A(B4,B5,S1)", "C(S1,C(B4,B5))", "K(C(B4,B5))", "C(B3,B5)"];
   for f in fixed {
     tried += 1; println!("CASE {f}");
     let mut i = 0; let t = dec(f.as_bytes(), &mut i);
